@@ -172,12 +172,16 @@ def effectful_closure(infos: dict[str, FnInfo], seeds: set[str],
     callback_names or a non-name callable, and every caller (by simple name)."""
     idx = simple_name_index(infos)
     eff = set(seeds)
+    extra_calls: dict[str, set[str]] = {}
     for k, fi in infos.items():
         if fi.opaque_calls:
             eff.add(k)
-        loc = local_callable_names(fi)
-        if any((c in callback_names) or (c in loc) for c in fi.calls):
+        resolved, unresolved = resolve_local_callables(fi, infos)
+        extra_calls[k] = resolved
+        if unresolved or any(c in callback_names for c in fi.calls):
             eff.add(k)
+    for k, extra in extra_calls.items():
+        infos[k].calls |= extra
     changed = True
     while changed:
         changed = False
@@ -259,3 +263,152 @@ def reflection_sites() -> list[str]:
             if isinstance(n, ast.Attribute) and n.attr in ("__dict__", "__setattr__"):
                 out.append(f"{m}:{n.lineno}: {loader.norm(n)[:80]}")
     return out
+
+
+# ---------------------------------------------------------------- callable provenance
+
+def _root_function(node):
+    r = node
+    p = getattr(node, "_parent", None)
+    while p is not None:
+        if isinstance(p, (ast.FunctionDef,)):
+            r = p
+        p = getattr(p, "_parent", None)
+    return r
+
+
+def _module_tables(modname: str):
+    """module-level NAME = {..: callable, ...} dict literals -> list of value exprs"""
+    mod = loader.module(modname)
+    out = {}
+    for name, node in mod.top.items():
+        val = getattr(node, "value", None)
+        if isinstance(val, ast.Dict):
+            out[name] = list(val.values)
+    return out
+
+
+def _safe_table_value(v: ast.expr, modname: str, eff_names: set[str]):
+    """-> (ok, set of package function names it may call)"""
+    if isinstance(v, ast.Tuple) and v.elts:
+        return _safe_table_value(v.elts[0], modname, eff_names)
+    if isinstance(v, ast.Lambda):
+        calls = set()
+        for n in ast.walk(v.body):
+            if isinstance(n, ast.Call):
+                f = n.func
+                nm = f.id if isinstance(f, ast.Name) else (f.attr if isinstance(f, ast.Attribute) else None)
+                if nm is None:
+                    return False, set()
+                calls.add(nm)
+        return True, calls
+    if isinstance(v, ast.Attribute) and isinstance(v.value, ast.Name) and v.value.id in ("math", "operator"):
+        return True, set()
+    if isinstance(v, ast.Name):
+        if v.id in BUILTINS:
+            return True, set()
+        return True, {v.id}
+    if isinstance(v, ast.Constant):
+        return True, set()
+    return False, set()
+
+
+def resolve_local_callables(fi: FnInfo, infos) -> tuple[set[str], list[str]]:
+    """for the local names fi calls: (names of functions they may denote,
+    unresolved names).  Resolution is syntactic and conservative:
+      - a parameter p: every call site of fi's function inside the enclosing
+        top-level function passes a nested-def name, a module-level table or
+        another resolvable parameter;
+      - a local assigned from T.get(..)/T[..] with T a module-level table or a
+        parameter that resolves to tables."""
+    loc = local_callable_names(fi)
+    called = {c for c in fi.calls if c in loc}
+    if not called:
+        return set(), []
+    root = _root_function(fi.node)
+    nested = {n.name for n in ast.walk(root) if isinstance(n, ast.FunctionDef)}
+    tables = _module_tables(fi.mod)
+    resolved: set[str] = set()
+    unresolved: list[str] = []
+
+    def table_callees(tname):
+        out = set()
+        for v in tables[tname]:
+            ok, calls = _safe_table_value(v, fi.mod, set())
+            if not ok:
+                return None
+            out |= calls
+        return out
+
+    def param_args(fn_node, pname):
+        """argument expressions passed for parameter pname at every call of fn_node.name in root"""
+        a = fn_node.args
+        names = [x.arg for x in list(a.posonlyargs) + list(a.args)]
+        if pname not in names:
+            return None
+        idx = names.index(pname)
+        out = []
+        for n in ast.walk(root):
+            if isinstance(n, ast.Call) and isinstance(n.func, ast.Name) and n.func.id == fn_node.name:
+                if len(n.args) > idx:
+                    out.append(n.args[idx])
+                else:
+                    kw = [k.value for k in n.keywords if k.arg == pname]
+                    if kw:
+                        out.append(kw[0])
+                    else:
+                        defaults = a.defaults
+                        di = idx - (len(names) - len(defaults))
+                        if di >= 0:
+                            out.append(defaults[di])
+                        else:
+                            return None
+        return out
+
+    def resolve_expr(e, owner_fn, depth=0):
+        """-> set of callee names or None"""
+        if depth > 4:
+            return None
+        if isinstance(e, ast.Name):
+            if e.id in nested:
+                return {e.id}
+            if e.id in tables:
+                return table_callees(e.id)
+            # parameter of owner_fn?
+            args = param_args(owner_fn, e.id)
+            if args is not None and owner_fn is not root:
+                out = set()
+                for a in args:
+                    r = resolve_expr(a, _enclosing_fn(owner_fn), depth + 1)
+                    if r is None:
+                        return None
+                    out |= r
+                return out
+            # local assigned from table access
+            for n in _own_nodes(owner_fn):
+                if isinstance(n, ast.Assign) and any(isinstance(t, ast.Name) and t.id == e.id for t in n.targets):
+                    return resolve_expr(n.value, owner_fn, depth + 1)
+            return None
+        if isinstance(e, ast.Call) and isinstance(e.func, ast.Attribute) and e.func.attr == "get":
+            return resolve_expr(e.func.value, owner_fn, depth + 1)
+        if isinstance(e, ast.Subscript):
+            return resolve_expr(e.value, owner_fn, depth + 1)
+        if isinstance(e, ast.Lambda):
+            ok, calls = _safe_table_value(e, fi.mod, set())
+            return calls if ok else None
+        return None
+
+    for c in sorted(called):
+        r = resolve_expr(ast.Name(id=c, ctx=ast.Load()), fi.node)
+        if r is None:
+            unresolved.append(c)
+        else:
+            resolved |= r
+    return resolved, unresolved
+
+
+def _enclosing_fn(fn):
+    p = getattr(fn, "_parent", None)
+    while p is not None and not isinstance(p, ast.FunctionDef):
+        p = getattr(p, "_parent", None)
+    return p if p is not None else fn
